@@ -69,6 +69,8 @@ def plan(tier, seed):
     units += [{'kind': 'pairs', 'ver': v, 'part': p} for v in ('1.0', '1.1') for p in range(8)]
     units += [{'kind': 'xpath', 'ver': v} for v in ('1.0', '1.1')]
     units += [{'kind': 'invalid', 'ver': v} for v in ('1.0', '1.1')]
+    units += [{'kind': 'dates', 'ver': v} for v in ('1.0', '1.1')]
+    units += [{'kind': 'durations', 'part': q} for q in range(4)]
     return {
         'units': units,
         'bounds': {'years': len(ys), 'year_range': [ys[0], ys[-1]], 'month_days': 26, 'times': len(TIMES), 'timezones': len(TZS),
@@ -92,32 +94,24 @@ def model_canon(y, m, d, t, tz, ver):
     return TL.fields_from_seconds(local, ver), local, utc
 
 
+_LEX = None
+
+
 def fields_of(v):
     """lexical fields of an implementation value, from its string form (the property is about the lexical numbering)"""
-    s = str(v)
-    neg = s.startswith('-')
-    body = s[1:] if neg else s
-    date, _, rest = body.partition('T')
-    yy, mm, dd = date.split('-')[0], date.split('-')[1], date.split('-')[2]
-    y = -int(yy) if neg else int(yy)
-    tzpart = None
-    tm = rest
-    for k in range(len(rest)):
-        if rest[k] in 'Z+-':
-            tm, tzs_ = rest[:k], rest[k:]
-            tzpart = 0 if tzs_ == 'Z' else (1 if tzs_[0] == '+' else -1) * (int(tzs_[1:3]) * 60 + int(tzs_[4:6]))
-            break
-    if tm:
-        hh, mi, ss = tm.split(':')
-        return (y, int(mm), int(dd[:2]), int(hh), int(mi), Fraction(ss)), tzpart
-    # a date: the timezone follows the day
-    dd2 = dd
-    for k in range(2, len(dd)):
-        if dd[k] in 'Z+-':
-            dd2, tzs_ = dd[:k], dd[k:]
-            tzpart = 0 if tzs_ == 'Z' else (1 if tzs_[0] == '+' else -1) * (int(tzs_[1:3]) * 60 + int(tzs_[4:6]))
-            break
-    return (y, int(mm), int(dd2), 0, 0, Fraction(0)), tzpart
+    global _LEX
+    import re
+    if _LEX is None:
+        _LEX = re.compile(r'^(-?)(\d{4,})-(\d\d)-(\d\d)(?:T(\d\d):(\d\d):(\d\d(?:\.\d+)?))?(Z|[+-]\d\d:\d\d)?$')
+    m = _LEX.match(str(v))
+    if m is None:
+        raise ValueError('not a date/dateTime string form: %r' % str(v))
+    y = int(m.group(2)) * (-1 if m.group(1) else 1)
+    z = m.group(8)
+    tzpart = None if z is None else 0 if z == 'Z' else (1 if z[0] == '+' else -1) * (int(z[1:3]) * 60 + int(z[4:6]))
+    if m.group(5) is None:
+        return (y, int(m.group(3)), int(m.group(4)), 0, 0, Fraction(0)), tzpart
+    return (y, int(m.group(3)), int(m.group(4)), int(m.group(5)), int(m.group(6)), Fraction(m.group(7))), tzpart
 
 
 def td_seconds(td):
@@ -425,8 +419,294 @@ def run_invalid(unit, tier, acc):
     acc.sample({'xsd_version': ver, 'lexical': '-0001-02-29' if ver == '1.0' else '0000-02-29', 'expected': 'valid (1 BCE is a leap year)'})
 
 
+def _sel(p, src, tzc=None, **v):
+    from elementpath import XPathContext, ElementPathError
+    try:
+        r = p.parse(src).evaluate(XPathContext(root=None, item=1, variables=v, timezone=tzc))
+        return ('value', r)
+    except ElementPathError as e:
+        return ('error', (e.code or '').split(':')[-1])
+    except Exception as e:  # noqa
+        return ('escape', type(e).__name__ + ':' + str(e)[:60])
+
+
+def dur_string(sec):
+    sign = '-' if sec < 0 else ''
+    sec = abs(sec)
+    whole = int(sec)
+    frac = sec - whole
+    txt = '%d' % whole + (('.%06d' % int(frac * 1000000)).rstrip('0') if frac else '')
+    return '%sPT%sS' % (sign, txt)
+
+
+def time_string(t, tz):
+    return '%02d:%02d:%s%s' % (t[0], t[1], secs(t[2]), tzs(tz))
+
+
+def parse_time(sv):
+    """'hh:mm:ss(.f)?tz?' -> (seconds Fraction, tz minutes or None)"""
+    tzpart = None
+    tm = sv
+    for k in range(len(sv)):
+        if sv[k] in 'Z+-':
+            tm, z = sv[:k], sv[k:]
+            tzpart = 0 if z == 'Z' else (1 if z[0] == '+' else -1) * (int(z[1:3]) * 60 + int(z[4:6]))
+            break
+    hh, mi, ss = tm.split(':')
+    return int(hh) * 3600 + int(mi) * 60 + Fraction(ss), tzpart
+
+
+def run_durations(unit, tier, acc):
+    """months-to-days helper and the order of xs:duration values (XSD: ordered iff ordered from all four reference dateTimes)"""
+    import operator
+    from elementpath.helpers import months2days
+    from elementpath.datatypes import Duration, DayTimeDuration, YearMonthDuration
+    ys = list(range(-8, 9)) + list(range(96, 105)) + list(range(396, 405)) + [1696, 1697, 1903, 1999, 2000, 2100]
+    deltas = list(range(-40, 41)) + [1200, -1200, 4800, -4800, 4801, -4801]
+    for y in ys:
+        for m in range(1, 13):
+            for d in deltas:
+                tot = y * 12 + m - 1 + d
+                y2, m2 = divmod(tot, 12)
+                want = TL.days_from_civil(y2, m2 + 1, 1) - TL.days_from_civil(y, m, 1)
+                acc.ev()
+                acc.cmp()
+                acc.case(y <= 0 or y2 <= 0 or m <= 2 <= m2 + 1)
+                try:
+                    got = months2days(y, m, d)
+                except Exception as e:  # noqa
+                    got = 'raised ' + repr(e)[:80]
+                if got != want:
+                    viol(acc, 'months2days', 'any', (y, y2), 'months2days(%d, %d, %d)' % (y, m, d), {'expected': want, 'observed': got}, {'kind': 'durations'})
+    # duration order
+    refs = [(1696, 9), (1697, 2), (1903, 3), (1903, 7)]
+    months = [0, 1, -1, 2, 3, 5, 6, 11, 12, 13, -12, 24, 1200]
+    day_counts = [0, 1, 27, 28, 29, 30, 31, 32, 58, 59, 60, 61, 62, 89, 90, 92, 93, 150, 153, 154, 180, 181, 184, 185, 334, 337, 365, 366, 367, 730, 731, 36524, 36525]
+    durs = []
+    for mo in months:
+        for dc in day_counts:
+            for sg in (1, -1):
+                for extra in (0, Fraction(1, 2)):
+                    durs.append((mo, sg * dc * 86400 + extra))
+    durs = sorted(set(durs))
+    objs = {}
+    for (mo, sc) in durs:
+        try:
+            objs[(mo, sc)] = Duration(months=mo, seconds=sc if isinstance(sc, int) else __import__('decimal').Decimal(sc.numerator) / sc.denominator)
+        except ValueError:
+            pass            # months and seconds of opposite sign are not one xs:duration
+    keys = sorted(objs)
+
+    def ends(mo, sc):
+        out = []
+        for (ry, rm) in refs:
+            tot = ry * 12 + rm - 1 + mo
+            y2, m2 = divmod(tot, 12)
+            out.append(TL.days_from_civil(y2, m2 + 1, 1) * 86400 + sc)
+        return out
+    E = {k: ends(*k) for k in keys}
+    ops = [('lt', operator.lt), ('le', operator.le), ('gt', operator.gt), ('ge', operator.ge)]
+    part = unit['part']
+    for i, k1 in enumerate(keys):
+        if i % 4 != part:
+            continue
+        for k2 in keys:
+            acc.case(k1[0] != k2[0])
+            for name, op in ops:
+                acc.ev()
+                acc.cmp()
+                want = all(op(a, b) for a, b in zip(E[k1], E[k2]))
+                try:
+                    got = op(objs[k1], objs[k2])
+                except Exception as e:  # noqa
+                    got = 'raised ' + repr(e)[:80]
+                acc.outcome('durcmp:%s' % (got if isinstance(got, bool) else 'raised'))
+                if got != want:
+                    viol(acc, 'duration-order', 'any', 1, '%s %s %s' % (objs[k1], name, objs[k2]), {'expected': want, 'observed': got,
+                         'months_seconds': [list(map(str, k1)), list(map(str, k2))]}, {'kind': 'durations'})
+                    break
+    acc.sample({'duration_pair': ['P1M', 'P30D'], 'expected': 'unordered: lt, le, gt, ge all false'})
+
+
+def run_dates(unit, tier, acc):
+    """xs:date, xs:time and gregorian values through the XPath operators and adjust-date/time-to-timezone"""
+    from elementpath.xpath31 import XPath31Parser
+    ver = unit['ver']
+    DT, D = classes(ver)
+    p = XPath31Parser(xsd_version=ver)
+    ys = [-401, -400, -5, -4, -1, 0, 1, 4, 1900, 2000, 2024, 9999, 10000, 12000]
+    date_durs = [0, 1, -1, 86399, 86400, -86400, 86401, 36 * 3600, -36 * 3600, 365 * 86400, -366 * 86400, 146097 * 86400, -146097 * 86400]
+    dates = []
+    for y in ys:
+        if y == 0 and ver == '1.0':
+            continue
+        a = TL.astro(y, ver)
+        for (m, d) in ((1, 1), (1, 31), (2, 28), (2, 29), (3, 1), (3, 31), (12, 31)):
+            if d > TL.month_len(a, m):
+                continue
+            for tz in (None, 0, 330, -840, 840):
+                dates.append((y, m, d, tz))
+
+    def dstr(y, m, d, tz):
+        return '%s-%02d-%02d%s' % (TL.fmt_year(y), m, d, tzs(tz))
+    for (y, m, d, tz) in dates:
+        s = dstr(y, m, d, tz)
+        case = {'kind': 'dates', 'ver': ver}
+        acc.case(True)
+        day0 = TL.days_from_civil(TL.astro(y, ver), m, d)
+        for dsec in date_durs:
+            want_day = (day0 * 86400 + dsec) // 86400
+            wf = TL.fields_from_seconds(want_day * 86400, ver)
+            for sign, dd in (('+', dsec), ):
+                r = _sel(p, 'string(xs:date($s) + xs:dayTimeDuration($d))', s=s, d=dur_string(dsec))
+                acc.ev()
+                acc.cmp()
+                ok = False
+                if r[0] == 'value':
+                    try:
+                        f, gtz = fields_of(D.fromstring(r[1]))
+                        ok = f[:3] == wf[:3] and gtz == tz
+                    except Exception:  # noqa
+                        ok = False
+                elif r == ('error', 'FODT0001') and not (-(2 ** 31) < wf[0] < 2 ** 31):
+                    ok = True
+                acc.outcome('date+dur:' + ('ok' if ok else 'bad'))
+                if not ok:
+                    viol(acc, 'date-add-dayTimeDuration', ver, (y, wf[0]), 'xs:date(%s) + %s' % (s, dur_string(dsec)), {'expected_date': repr(wf[:3]), 'observed': repr(r)[:100]}, case)
+        for mo in YMS:
+            ny, nm, nd = TL.add_months(y, m, d, mo, ver)
+            r = _sel(p, 'string(xs:date($s) + xs:yearMonthDuration($d))', s=s, d='%sP%dM' % ('-' if mo < 0 else '', abs(mo)))
+            acc.ev()
+            acc.cmp()
+            ok = False
+            if r[0] == 'value':
+                try:
+                    f, gtz = fields_of(D.fromstring(r[1]))
+                    ok = f[:3] == (ny, nm, nd) and gtz == tz
+                except Exception:  # noqa
+                    ok = False
+            if not ok:
+                viol(acc, 'date-add-yearMonthDuration', ver, (y, ny), 'xs:date(%s) + P%dM' % (s, mo), {'expected_date': repr((ny, nm, nd)), 'observed': repr(r)[:100]}, case)
+        # adjust-date-to-timezone
+        for tz2 in (0, 330, -840, 840):
+            dur = dur_string(tz2 * 60)
+            r = _sel(p, 'string(adjust-date-to-timezone(xs:date($s), xs:dayTimeDuration($d)))', s=s, d=dur)
+            acc.ev()
+            acc.cmp()
+            if tz is None:
+                want = (y, m, d)
+            else:
+                utc = day0 * 86400 - tz * 60
+                want = TL.fields_from_seconds(utc + tz2 * 60, ver)[:3]
+            ok = False
+            if r[0] == 'value':
+                try:
+                    f, gtz = fields_of(D.fromstring(r[1]))
+                    ok = f[:3] == want and gtz == tz2
+                except Exception:  # noqa
+                    ok = False
+            if not ok:
+                viol(acc, 'adjust-date-to-timezone', ver, (y, want[0]), 'adjust-date-to-timezone(%s, %s)' % (s, dur), {'expected_date': repr(want), 'observed': repr(r)[:100]}, case)
+    # date - date and comparisons: all pairs with the same timezone presence
+    import operator
+    sub = [x for x in dates if x[3] in (None, 0, 330, -840) and x[1:3] in ((1, 1), (2, 29), (3, 1), (12, 31))]
+    ops = [('eq', operator.eq), ('lt', operator.lt), ('ge', operator.ge)]
+    for a in sub:
+        for b in sub:
+            if (a[3] is None) != (b[3] is None):
+                continue
+            ia = TL.days_from_civil(TL.astro(a[0], ver), a[1], a[2]) * 86400 - (a[3] or 0) * 60
+            ib = TL.days_from_civil(TL.astro(b[0], ver), b[1], b[2]) * 86400 - (b[3] or 0) * 60
+            sa, sb = dstr(*a), dstr(*b)
+            case = {'kind': 'dates', 'ver': ver}
+            acc.case(True)
+            r = _sel(p, '(xs:date($a) - xs:date($b)) div xs:dayTimeDuration("PT1S")', a=sa, b=sb)
+            acc.ev()
+            acc.cmp()
+            if not (r[0] == 'value' and Fraction(str(r[1])) == ia - ib):
+                viol(acc, 'date-subtraction', ver, (a[0], b[0]), 'xs:date(%s) - xs:date(%s)' % (sa, sb), {'expected_seconds': str(ia - ib), 'observed': repr(r)[:100]}, case)
+            for name, op in ops:
+                r = _sel(p, 'xs:date($a) %s xs:date($b)' % name, a=sa, b=sb)
+                acc.ev()
+                acc.cmp()
+                if r != ('value', op(ia, ib)):
+                    viol(acc, 'date-comparison', ver, (a[0], b[0]), 'xs:date(%s) %s xs:date(%s)' % (sa, name, sb), {'expected': op(ia, ib), 'observed': repr(r)[:100]}, case)
+                    break
+    # xs:time
+    times = [(t, tz) for t in (TIMES[0], TIMES[1], TIMES[2], (1, 0, Fraction(0)), (23, 0, Fraction(0))) for tz in (None, 0, 330, -840, 840)]
+    for (t, tz) in times:
+        s = time_string(t, tz)
+        base = t[0] * 3600 + t[1] * 60 + t[2]
+        case = {'kind': 'dates', 'ver': ver}
+        acc.case(True)
+        for dsec in [0, 1, -1, 3600 * 5 + 61, -(3600 * 5 + 61), 86400, -86400, 86399, 90000, -90000, Fraction(1, 2), 146097 * 86400 + 1]:
+            r = _sel(p, 'string(xs:time($s) + xs:dayTimeDuration($d))', s=s, d=dur_string(dsec))
+            acc.ev()
+            acc.cmp()
+            want = (base + dsec) % 86400
+            ok = False
+            if r[0] == 'value':
+                try:
+                    ok = parse_time(r[1]) == (want, tz)
+                except Exception:  # noqa
+                    ok = False
+            if not ok:
+                viol(acc, 'time-add-dayTimeDuration', ver, 1, 'xs:time(%s) + %s' % (s, dur_string(dsec)), {'expected_seconds_of_day': str(want), 'observed': repr(r)[:100]}, case)
+        for tz2 in (0, 330, -840, 840):
+            dur = dur_string(tz2 * 60)
+            r = _sel(p, 'string(adjust-time-to-timezone(xs:time($s), xs:dayTimeDuration($d)))', s=s, d=dur)
+            acc.ev()
+            acc.cmp()
+            want = base if tz is None else (base - tz * 60 + tz2 * 60) % 86400
+            ok = False
+            if r[0] == 'value':
+                try:
+                    ok = parse_time(r[1]) == (want, tz2)
+                except Exception:  # noqa
+                    ok = False
+            if not ok:
+                viol(acc, 'adjust-time-to-timezone', ver, 1, 'adjust-time-to-timezone(%s, %s)' % (s, dur), {'expected_seconds_of_day': str(want), 'observed': repr(r)[:100]}, case)
+        for (t2, tzb) in times:
+            if (tz is None) != (tzb is None):
+                continue
+            s2 = time_string(t2, tzb)
+            ia = base - (tz or 0) * 60
+            ib = t2[0] * 3600 + t2[1] * 60 + t2[2] - (tzb or 0) * 60
+            r = _sel(p, '(xs:time($a) - xs:time($b)) div xs:dayTimeDuration("PT1S")', a=s, b=s2)
+            acc.ev()
+            acc.cmp()
+            if not (r[0] == 'value' and Fraction(str(r[1])) == ia - ib):
+                viol(acc, 'time-subtraction', ver, 1, 'xs:time(%s) - xs:time(%s)' % (s, s2), {'expected_seconds': str(ia - ib), 'observed': repr(r)[:100]}, case)
+            for name, op in ops:
+                r = _sel(p, 'xs:time($a) %s xs:time($b)' % name, a=s, b=s2)
+                acc.ev()
+                acc.cmp()
+                if r != ('value', op(ia, ib)):
+                    viol(acc, 'time-comparison', ver, 1, 'xs:time(%s) %s xs:time(%s)' % (s, name, s2), {'expected': op(ia, ib), 'observed': repr(r)[:100]}, case)
+                    break
+    # component extraction from xs:date and gregorian equality in BCE years
+    for (y, m, d, tz) in dates:
+        s = dstr(y, m, d, tz)
+        for c, want in (('year', y), ('month', m), ('day', d)):
+            r = _sel(p, '%s-from-date(xs:date($s))' % c, s=s)
+            acc.ev()
+            acc.cmp()
+            if r != ('value', want):
+                viol(acc, 'component-%s-from-date' % c, ver, y, '%s-from-date(%s)' % (c, s), {'expected': want, 'observed': repr(r)[:100]}, {'kind': 'dates', 'ver': ver})
+        if tz is None and (m, d) == (1, 1):
+            gy = TL.fmt_year(y)
+            for src, want in (('xs:gYear($a) eq xs:gYear($a)', True), ('string(xs:gYear($a))', gy), ('string(xs:gYearMonth($b))', gy + '-02'),
+                              ('xs:gYear($a) eq xs:gYear($c)', False), ('string(xs:gYear(xs:date($s)))', gy), ('string(xs:gYearMonth(xs:dateTime($t)))', gy + '-01')):
+                r = _sel(p, src, a=gy, b=gy + '-02', c=TL.fmt_year(y + 1 if not (y + 1 == 0 and ver == '1.0') else 1), s=s, t=s + 'T00:00:00')
+                acc.ev()
+                acc.cmp()
+                if r != ('value', want):
+                    viol(acc, 'gregorian-year-types', ver, y, '%s with %s' % (src, gy), {'expected': want, 'observed': repr(r)[:100]}, {'kind': 'dates', 'ver': ver})
+    acc.sample({'xsd_version': ver, 'expression': "xs:date('-0004-02-29') + xs:dayTimeDuration('PT36H')"})
+
+
 def run_unit(unit, tier, acc):
-    {'values': run_values, 'pairs': run_pairs, 'xpath': run_xpath, 'invalid': run_invalid}[unit['kind']](unit, tier, acc)
+    {'values': run_values, 'pairs': run_pairs, 'xpath': run_xpath, 'invalid': run_invalid, 'durations': run_durations, 'dates': run_dates}[unit['kind']](unit, tier, acc)
 
 
 def replay(case, acc):
@@ -439,5 +719,10 @@ def replay(case, acc):
             run_pairs({'ver': case['ver'], 'part': p}, 'quick', acc)
     elif k == 'xpath':
         run_xpath({'ver': case['ver']}, 'quick', acc)
+    elif k == 'dates':
+        run_dates({'ver': case['ver']}, 'quick', acc)
+    elif k == 'durations':
+        for q in range(4):
+            run_durations({'part': q}, 'quick', acc)
     else:
         run_invalid({'ver': case['ver']}, 'quick', acc)
